@@ -31,10 +31,10 @@ fn p(marker: &str) -> Stmt {
 // C11 templates
 
 const KINDS: usize = 5; // Block, If, IfElse, IfElifElse, While
-const TEMPLATE_SPACE: u64 = 4 * 155 * 27 * 4 * 4 * 2 * 2;
+pub const TEMPLATE_SPACE: u64 = 4 * 155 * 27 * 4 * 4 * 2 * 2;
 
 /// decode a template index into a program
-fn template(mut i: u64) -> Vec<Stmt> {
+pub fn template(mut i: u64) -> Vec<Stmt> {
     let mut take = |n: u64| -> u64 {
         let v = i % n;
         i /= n;
